@@ -10,6 +10,7 @@ Failure search: an independent Python big-integer oracle of the kernels decides 
         disagreeing lane; a back-end-vs-back-end difference is itself the failing input (re-run with dump=1).
 """
 import os
+import re
 
 from . import common
 
@@ -347,6 +348,34 @@ def gen_q120(rng, quick, consts):
     return cases
 
 
+def gen_cnvk(rng, quick):
+    """`I64Ops::i64_convolution_by_const` (FFT64 family, integer kernel) on explicit blocks: model vs fref / favx, fref vs favx.
+    Every value class is admissible: the kernel is exact in wrapping i64 (C10.CnvAvx.fft64avx_cnv_by_const_eq_ref_all_inputs)."""
+    cases = []
+    B = [0, 1, -1, (1 << 31) - 1, 1 << 31, -(1 << 31), -(1 << 31) - 1, (1 << 32) - 1, 1 << 32, 3000000000, -3000000000, 1 << 62, -(1 << 62),
+         I64MIN, I64MAX]
+
+    def val(cls):
+        if cls == "i32":
+            return (rng.next() % (1 << 32)) - (1 << 31)
+        if cls == "bnd":
+            return rng.choice(B)
+        if cls == "mid":      # 33..48 bits
+            return (rng.next() % (1 << 48)) - (1 << 47)
+        return rng.next() - (1 << 63)
+
+    for rep in range(3 if quick else 30):
+        for cls in ("i32", "bnd", "mid", "full"):
+            asz, bsz = rng.range(1, 5), rng.range(1, 5)
+            for dst in ([0, 1, 2, 3, 6] if rep == 0 else [rng.range(0, 9)]):
+                off = rng.range(0, asz + bsz + 1)
+                xs = [val(cls) for _ in range(8 * asz)]
+                ys = [val(cls) for _ in range(bsz)]
+                cases.append(dict(line=f"dst={dst} off={off} asz={asz} x={ints(xs)} y={ints(ys)}", fam="cnvk", op="cnv_by_const", cls=cls,
+                                  key=("cnvk", cls, asz, bsz, min(dst, 3), off > asz + bsz - 1)))
+    return cases
+
+
 def gen_nk(rng, quick, consts, bconsts):
     """raw NTT120 kernels (`pvh avx nk`): twin of the C10.NttAvx lane / whole-kernel theorems.
     `eq` = the operands are inside the range for which Ref == AVX is PROVED (outside, each implementation is still compared
@@ -606,6 +635,43 @@ def gen_hal(rng, quick):
             add("dft_fft_raw", f"cols=1 sa=2 b=20 va={cls} ma=40", "transform_raw", "fftraw", n, (n, cls))
             add("dft_ifft_raw", f"cols=1 sa=2 b=20 va={cls} ma=40", "transform_raw", "fam", n, (n, cls))
             add("dft_idft_consume", f"cols=1 col=0 sa=2 sr=2 b=20 step=1 doff=0 va={cls} ma=20", "transform_raw", "all", n, (n, cls))
+    # ---- integer (non-FFT) kernel families with FULL-RANGE i64 digits on every back end: the FFT magnitude domain restricts only the
+    # floating-point paths.  FFT64's big is a wrapping i64 and NTT120's an exact i128, so where a result can leave i64 the demand is
+    # Ref == AVX inside each family ("fam"); where it cannot, all four must agree ("all").
+    for _ in range(rep):
+        for op in COEFF_OPS:
+            n, cols, sa, sb, sr = shape()
+            pp = rng.range(-2 * n - 3, 2 * n + 3) | (1 if "automorphism" in op else 0)
+            add(op, f"cols={cols} col={rng.below(cols)} sa={sa} sb={sb} sr={sr} b=12 k={rng.below(5)} p={pp} va=full vb=full vr=full ma=64 mb=64",
+                "int_full:vec_znx", "all", n, ("intfull", n))
+        for b in (1, 2, 7, 17, 31, 32, 33, 47, 52, 62, 63):
+            n, cols, sa, sb, sr = shape()
+            add("normalize", f"cols={cols} col={rng.below(cols)} sa={sa} sr={sr} b={b} b2={b} off={rng.range(-b, b)} va=full ma=64",
+                "int_full:normalize", "all", n, ("intfull", b))
+            n, cols, sa, sb, sr = shape()
+            add("normalize_assign", f"cols={cols} col={rng.below(cols)} sa={sa} b={b} va=full ma=64", "int_full:normalize", "all", n, ("intfull", b))
+            n, cols, sa, sb, sr = shape()
+            add(rng.choice(SHIFT_OPS), f"cols={cols} col={rng.below(cols)} sa={sa} sr={sr} b={max(b, 2)} k={rng.range(0, (sa + 1) * b)} va=full ma=64 vr=full",
+                "int_full:shift", "all", n, ("intfull", b))
+        for (ni, no) in ((8, 16), (16, 8), (64, 4), (2, 64)):
+            add("switch_ring", f"n2={no} cols=1 col=0 sa=2 sr=2 va=full ma=64", "int_full:ring", "all", ni, ("intfull", ni, no))
+        for op in BIGH_OPS:
+            n, cols, sa, sb, sr = shape()
+            pp = rng.range(-2 * n, 2 * n) | 1
+            add(op, f"cols={cols} col={rng.below(cols)} sa={sa} sb={sa} sr={sa} b=52 p={pp} va=full vb=full vr=full ma=64 mb=64 dbl={rng.range(1, 60)}",
+                "int_full:vec_znx_big", "fam", n, ("intfull", n))
+        for b in (3, 17, 32, 33, 52, 63):
+            n, cols, sa, sb, sr = shape()
+            add(BIGN_OPS[b % 4] if b % 3 else "big_normalize",
+                f"cols={cols} col={rng.below(cols)} sa={sa} sr={sr} b={b} b2={b} off=0 va=full ma=64 dbl={rng.range(1, 62)} vr=norm mr={b}",
+                "int_full:big_normalize", "fam", n, ("intfull", b))
+        # by-constant convolution: an integer kernel on FFT64 (wrapping i64) — the class that patch 34 repaired
+        for (va, ma, mb, dom) in (("full", 64, 64, "fam"), ("bnd", 64, 64, "fam"), ("mix", 64, 64, "fam"), ("norm", 33, 33, "fam"),
+                                  ("norm", 34, 12, "all"), ("norm", 40, 20, "all"), ("norm", 52, 8, "all")):
+            for n in (8, 16, 64):
+                sa, sb = rng.range(1, 5), rng.range(1, 5)
+                add("cnv_by_const_apply", f"cols=1 col=0 sa={sa} sb={sb} sr={rng.range(1, 8)} co={rng.range(0, 6)} b={min(ma, 52)} va={va} vb={va} ma={ma} mb={mb}",
+                    "int_full:cnv_by_const", dom, n, ("intfull", va, ma, mb, n))
     return cases
 
 
@@ -772,6 +838,19 @@ def run(ctx):
         broken += failures
     bv = sorted({a for axs in ctx.axioms.values() for a in axs if "bv_decide" in a})
     ctx.cov["bv_decide_axioms"] = bv
+
+
+    # ---- the FFT64 family's own Ref = AVX statement is proved in C07 (floating-point transforms inside the magnitude domain): cited
+    CITED = ["fft64_ref_avx_agree_inside_domain", "fft64_ref_avx_agree_numeric", "fft64_vmp_ref_avx_agree", "fft64_vmp_ref_avx_agree_numeric",
+             "fft64_vmp2_ref_avx_agree_numeric", "fft64_cnv_ref_avx_agree", "fft64_cnv_pairwise_ref_avx_agree"]
+    try:
+        c07src = open(os.path.join(common.LEAN, "Poulpy", "Props", "C07.lean")).read()
+    except OSError:
+        c07src = ""
+    missing = [t for t in CITED if not re.search(r"^theorem\s+" + re.escape(t) + r"\b", c07src, re.M)]
+    ctx.cov["cited_c07_theorems"] = {"module": "Poulpy.Props.C07 (namespace C07; discharged by ./check C07)", "names": CITED, "missing": missing}
+    if missing:
+        broken.append("cited C07 theorems not found in Props/C07.lean: " + ", ".join(missing))
 
     binp = ctx.build_harness()
     drv = ctx.driver()
@@ -943,6 +1022,38 @@ def run(ctx):
         ctx.cov["nk_outside_range_ref_avx_differences"] = outside_diff
         ctx.cov["kernel_lanes_compared"] = lanes_total
 
+
+        # ---- FFT64 family, integer by-constant convolution kernel (C10.CnvAvx.*): BitVec model vs fref / favx, fref vs favx, all value classes
+        kc = gen_cnvk(rng.fork(), quick)
+        jobs = [(c, be) for c in kc for be in ("fref", "favx")]
+        hl = [f"{i} cnvk be={be} {c['line']}" for i, (c, be) in enumerate(jobs)]
+        ml = [f"{i} avx cnvk be={be} {c['line']}" for i, (c, be) in enumerate(jobs)]
+        rc, hout, herr = ctx.run_lines(binp, ["avx"], hl)
+        rc2, mout, merr = ctx.run_lines(drv, [], ml)
+        if rc != 0 or len(hout) != len(jobs) or rc2 != 0 or len(mout) != len(jobs):
+            broken.append(f"cnvk run failed rc={rc}/{rc2} answers={len(hout)}/{len(mout)}/{len(jobs)} {herr[-200:]} {merr[-200:]}")
+        resc = {}
+        for i, (c, be) in enumerate(jobs):
+            hh_ = payload(hout[i]) if i < len(hout) else "?"
+            mm_ = payload(mout[i]) if i < len(mout) else "?"
+            resc[(id(c), be)] = hh_
+            ctx.count_case(c["key"] + (be,), nontrivial=True)
+            bump("kern:cnvk")
+            lanes_total += hh_.count(",") + 1
+            if hh_ != mm_ or "stray" in hh_:
+                ctx.disagreements += 1
+                broken.append(f"cnvk model != implementation: be={be} {c['line'][:160]} impl={hh_[:80]} model={mm_[:80]}")
+                witness = witness or {"kind": "cnvk-model-vs-impl", "be": be, "request": c["line"][:2000], "impl": hh_[:400], "model": mm_[:400]}
+        for c in kc:
+            ctx.count_case(c["key"] + ("fref=favx",), nontrivial=True)
+            if resc.get((id(c), "fref")) != resc.get((id(c), "favx")):
+                ctx.disagreements += 1
+                broken.append(f"Ref != AVX (i64 by-constant convolution kernel, class {c['cls']}): {c['line'][:200]}")
+                witness = witness or {"kind": "ref-vs-avx-cnvk", "request": "cnvk " + c["line"][:2000],
+                                      "fref": resc.get((id(c), "fref"), "")[:400], "favx": resc.get((id(c), "favx"), "")[:400]}
+        ctx.cov["cnvk_requests"] = len(jobs)
+        ctx.cov["kernel_lanes_compared"] = lanes_total
+
     # ---- gate 3b: HAL operations, scheme programs, sampling on four back ends
     if binp:
         hal = gen_hal(rng.fork(), quick)
@@ -1010,6 +1121,29 @@ def run(ctx):
             ctx.violation(("Ref != AVX: " if fk == K_REIM else "FFT64 != NTT120: ") + fk,
                           {"key": fk, "hits": len(hits), "witness": hits[0], "more": hits[1:6],
                            "rerun": "printf '0 " + hits[0]["request"] + " be=<back end> dump=1\\n' | harness/target/release/pvh avx"}, True, key=fk)
+        # digit-width histogram (two's-complement width incl. sign bit) of the operand digits fed to every integer (non-FFT) family
+        INT_FAMS = ("vec_znx", "vec_znx_normalize", "vec_znx_shift", "vec_znx_ring", "vec_znx_big", "big_normalize")
+        wcases = [c for c in hal if c["fam"].startswith("int_full:") or c["fam"] in INT_FAMS or c["op"] == "cnv_by_const_apply"]
+        wl = [f"{i} hal be=fref {c['line']} widths=1" for i, c in enumerate(wcases)]
+        rcw, wout, werr = ctx.run_lines(binp, ["avx"], wl, timeout=3000)
+        whist = {}
+        for i, c in enumerate(wcases):
+            pw = payload(wout[i]) if i < len(wout) else "?"
+            try:
+                h = [int(v) for v in pw.split(",")]
+            except ValueError:
+                broken.append(f"widths request failed: {c['line'][:120]} -> {pw[:80]}")
+                continue
+            famk = c["fam"] if c["fam"] != "cnv" else "cnv_by_const(norm)"
+            acc = whist.setdefault(famk, [0] * 5)
+            for j in range(5):
+                acc[j] += h[j]
+        ctx.cov["digit_width_histogram_buckets"] = ["<=16 bits", "17..32", "33..48", "49..63", "64"]
+        ctx.cov["digit_width_histogram_by_family"] = whist
+        for famk, h in sorted(whist.items()):
+            ctx.log(f"digit widths {famk}: <=16:{h[0]} 17-32:{h[1]} 33-48:{h[2]} 49-63:{h[3]} 64:{h[4]}")
+            if famk.startswith("int_full:") and h[3] + h[4] == 0:
+                broken.append(f"integer family {famk} was not exercised with full-range digits")
         ctx.cov["keyed_defect_hits"] = {k: len(v) for k, v in keyed.items()}
         ctx.cov["fft64_pair_outside_conversion_bound"] = outside
         ctx.cov["fft64_at_a_priori_bound_edge_worst_case"] = edge
